@@ -249,14 +249,24 @@ def run(ctx, rep):
     FF = prog.find1(r"^rustic_core::repofile::packfile::PackHeader::from_file$")
     okret = [bi for bi, blk in enumerate(FF.blocks) for s in blk["s"] if s[0] == "=" and s[1] == [0] and s[2][0] == "agg" and s[2][1][0] == "adt" and s[2][1][2] == "Ok"]
     def guarded(rx_a, rx_b, desc, key):
-        ok = False
-        for bi in okret:
-            for (sw, succ) in C.transitive_control_deps(FF, bi):
-                e = flow.expr_of(FF, FF.term(sw)["discr"])
-                txt = repr(e)
-                if e[0] == "bin" and e[1] in ("Ne", "Eq") and re.search(rx_a, txt) and re.search(rx_b, txt):
-                    ok = True
-        rep.check("C08.e", key, ok and bool(okret), where=FF.loc(), what=f"from_file returns Ok only if {desc}")
+        """evaluated: with the comparison of the two quantities answering "they differ" (in from_file itself or in a Result helper
+        it calls with `?`), no Ok return is reachable; with "equal" one is"""
+        def mk(equal):
+            def ev(body, e):
+                if isinstance(e, tuple) and e and e[0] == "bin" and e[1] in ("Ne", "Eq"):
+                    txt = repr(e)
+                    if re.search(rx_a, txt) and re.search(rx_b, txt):
+                        return (e[1] == "Eq") == equal
+                if isinstance(e, tuple) and e and e[0] == "call" and re.search(r"PartialEq(<.*>)?(>)?::(eq|ne)$", e[1]):
+                    txt = repr(e)
+                    if re.search(rx_a, txt) and re.search(rx_b, txt):
+                        return e[1].endswith("::eq") == equal
+                return None
+            return ev
+        r_diff = reachable_eval(prog, FF, mk(False), depth=2)
+        r_same = reachable_eval(prog, FF, mk(True), depth=2)
+        ok = bool(okret) and not any(bi in r_diff for bi in okret) and any(bi in r_same for bi in okret)
+        rep.check("C08.e", key, ok, where=FF.loc(), what=f"from_file returns Ok only if {desc}")
     guarded(r"PackHeader::size", r"PackHeaderLength::to_u32", "the decoded header's size equals the trailer length", "from_file/header-size")
     guarded(r"PackHeader::pack_size", r"\('arg', 4\)", "the pack size computed from the header equals the listed pack size", "from_file/pack-size")
     FBn = prog.find1(r"^rustic_core::repofile::packfile::PackHeader::from_binary$")
